@@ -1576,7 +1576,7 @@ func (x *explorer) doCall(st *state, fr *frame, c *ssa.CallCommon, bind *ssa.Cal
 	if isBound {
 		pureStatic = false
 	}
-	if !pureStatic && len(static.Blocks) > 0 && (isBound || (isSubjectPkg(fnPkgPath(static)) && (x.cfg.Inline(static) || x.cfg.ForceInline != nil && x.cfg.ForceInline(static) || x.argDriven(static, cargs)))) && fr.depth < x.cfg.MaxDepth+2 && (isBound || fr.depth < x.cfg.MaxDepth) && !x.onStackFor(st, static) {
+	if !pureStatic && len(static.Blocks) > 0 && (isBound || (isSubjectPkg(fnPkgPath(static)) && (x.cfg.Inline(static) || x.cfg.ForceInline != nil && x.cfg.ForceInline(static) || x.argDriven(static, cargs) || constantFunc(static)))) && fr.depth < x.cfg.MaxDepth+2 && (isBound || fr.depth < x.cfg.MaxDepth) && !x.onStackFor(st, static) {
 		nf := x.newFrame(st, static, args, free, fr.depth+1)
 		nf.inDefer = fr.inDefer || d != nil
 		if bind != nil {
@@ -2080,4 +2080,19 @@ func (P *Program) constStringSlice(name string) ([]string, bool) {
 	}
 	P.constSlices[name] = v
 	return v, true
+}
+
+// constantFunc: a parameterless, straight-line module function (a named literal:
+// func oidcSessionParameters() []string { return []string{…} }) is traversed
+// under every inline policy — it is the function spelling of a constant.
+func constantFunc(fn *ssa.Function) bool {
+	if fn.Signature.Recv() != nil || len(fn.Params) != 0 || len(fn.FreeVars) != 0 || len(fn.Blocks) != 1 || fn.Signature.Results().Len() != 1 {
+		return false
+	}
+	// constants only: a list or a scalar (constructors returning objects keep their identity as calls)
+	switch fn.Signature.Results().At(0).Type().Underlying().(type) {
+	case *types.Slice, *types.Basic:
+		return true
+	}
+	return false
 }
